@@ -45,7 +45,13 @@ var (
 
 // Attach installs the hooks of a simulation; Detach removes them.
 func Attach(h *H) { cur.Store(h) }
-func Detach()     { cur.Store(nil); epoch.Store(0) }
+func Detach() {
+	cur.Store(nil)
+	epoch.Store(0)
+	idMu.Lock()
+	ids = map[interface{}]uint64{}
+	idMu.Unlock()
+}
 
 // SetEpoch changes the map-order epoch (called by the harness between steps only).
 func SetEpoch(e uint64) { epoch.Store(e) }
@@ -83,9 +89,23 @@ func keyString(k any) string {
 	case uint64:
 		return fmt.Sprintf("%020d", v)
 	default:
-		return fmt.Sprint(k)
+		// pointers, interfaces, structs: a stable identity = order of first appearance in this run
+		// (addresses differ between processes)
+		idMu.Lock()
+		id, ok := ids[k]
+		if !ok {
+			id = uint64(len(ids) + 1)
+			ids[k] = id
+		}
+		idMu.Unlock()
+		return fmt.Sprintf("#%020d", id)
 	}
 }
+
+var (
+	idMu sync.Mutex
+	ids  = map[interface{}]uint64{}
+)
 
 func rank(seed, ep uint64, s string) uint64 {
 	h := fnv.New64a()
